@@ -245,6 +245,24 @@ func ruleAZResetRules(p *Prog, r *Reporter) {
 		}
 	}
 	r.Check(ok, p.instrPos(reset), name, "ResetRules before block loop", "v.world.ResetRules() dominates the block loop and no authority-level rule is added after it", "a rule is added to the authority-level world after ResetRules")
+	// ResetRules really empties the rule list, unconditionally
+	if rr := p.Func("datalog", "World", "ResetRules"); rr != nil {
+		okBody := false
+		for _, fs := range fieldStoresVia(rr, rr.Params[0]) {
+			if fs.field == "rules" && isEmptyFresh(fs.st.Val) {
+				all := true
+				for _, ret := range returnsOf(rr) {
+					if !(fs.st.Block() == ret.Block() || fs.st.Block().Dominates(ret.Block())) {
+						all = false
+					}
+				}
+				okBody = all
+			}
+		}
+		r.Check(okBody, p.Pos(rr.Pos()), p.FuncName(rr), "ResetRules empties rules", "stores an empty rule list on every path", "World.ResetRules does not unconditionally replace the rule list by an empty one")
+	} else {
+		r.Dunno("?", "datalog.World.ResetRules", "method", "not found")
+	}
 }
 
 func ruleAZWorldSel(p *Prog, r *Reporter) {
